@@ -48,6 +48,8 @@ Record tx := mkTx {
   t_work : N;            (* total_work_for_me for the producer's key (Transaction::generate) *)
   t_inputs : list N;     (* utxoset keys of the inputs with amount > 0 *)
   t_atr_slips : N;       (* outputs of slip type ATR (counted by Block::generate for ATR transactions) *)
+  t_target : N;          (* golden ticket: interned gt.target (0 otherwise) *)
+  t_own : bool;          (* every input slip carries the node's own public key *)
 }.
 
 Definition is_type (k : ttype) (t : tx) : bool := ttype_eqb (t_type t) k.
@@ -274,13 +276,10 @@ Section Producer.
         (opt_list gt ++ drained)
         0 false 0 0 0.
 
-  Definition create (dbg : bool) (n : node) (creator ts : N) (gt : option tx) (drained : list tx)
-    : res block :=
-    let v := view (n_chain n) in
-    let tip_hash := match v_tip v with Some p => par_hash p | None => 0 end in
-    let par := v_tip v in
-    let b0 := pre_block par tip_hash creator ts gt drained in
-    let c := cv (n_chain n) (n_ledger n) b0 in
+  (* the body of Block::create from the point where the consensus values [c] of the half-built
+     block [b0] are known *)
+  Definition create_from (dbg : bool) (n : node) (b0 : block) (c : cvrec) : res block :=
+    let par := v_tip (view (n_chain n)) in
     let e := c_econ c in
     do tf <- uadd dbg (e_total_fees_new e) (e_total_fees_atr e);
     do t1 <- uadd dbg (match par with Some p => par_treasury p | None => 0 end) (e_total_payout_treasury e);
@@ -289,8 +288,44 @@ Section Producer.
     let txs1 := b_txs b0 ++ c_rebroadcasts c ++ opt_list (c_fee_tx c) in
     if dup_spend txs1 then Err
     else Ok (generate
-               (mkB (b_id b0) ts tip_hash creator (b_unpaid b0) tr gy (set_total_fees e tf)
+               (mkB (b_id b0) (b_ts b0) (b_prev b0) (b_creator b0) (b_unpaid b0) tr gy (set_total_fees e tf)
                     txs1 (mroot (map t_id txs1)) true 0 0 0)).
+
+  (* fix 1214e31: a transaction (other than the golden ticket) that spends an input of one of
+     the rebroadcasts of this block is left out *)
+  Definition rb_inputs (c : cvrec) : list N := flat_map t_inputs (c_rebroadcasts c).
+  Definition collides (ks : list N) (t : tx) : bool := existsb (fun k => mem k ks) (t_inputs t).
+  Definition keepf (c : cvrec) (t : tx) : bool :=
+    is_type TGoldenTicket t || negb (collides (rb_inputs c) t).
+  Definition keep_txs (c : cvrec) (l : list tx) : list tx :=
+    if is_nil (c_rebroadcasts c) then l else filter (keepf c) l.
+  Definition set_txs (b : block) (l : list tx) : block :=
+    mkB (b_id b) (b_ts b) (b_prev b) (b_creator b) (b_unpaid b) (b_treasury b) (b_graveyard b)
+        (b_econ b) l (b_merkle b) (b_signed b) (b_total_work b) (b_rb_slips b) (b_rb_hash b).
+
+  Definition tip_hash_of (n : node) : N :=
+    match v_tip (view (n_chain n)) with Some p => par_hash p | None => 0 end.
+
+  (* the half-built block after the filter, and the consensus values create goes on with
+     (recomputed only if something was left out) *)
+  Definition create_pre (n : node) (creator ts : N) (gt : option tx) (drained : list tx) : block * cvrec :=
+    let b0 := pre_block (v_tip (view (n_chain n))) (tip_hash_of n) creator ts gt drained in
+    let c0 := cv (n_chain n) (n_ledger n) b0 in
+    let k := keep_txs c0 (b_txs b0) in
+    let b1 := set_txs b0 k in
+    (b1, if (length k =? length (b_txs b0))%nat then c0 else cv (n_chain n) (n_ledger n) b1).
+
+  Definition create (dbg : bool) (n : node) (creator ts : N) (gt : option tx) (drained : list tx)
+    : res block :=
+    let bc := create_pre n creator ts gt drained in
+    create_from dbg n (fst bc) (snd bc).
+
+  (* the pooled transactions create hands back when it fails (everything it still holds that is
+     not a golden ticket, a rebroadcast or the fee transaction) *)
+  Definition handed_back (n : node) (creator ts : N) (gt : option tx) (drained : list tx) : list tx :=
+    let bc := create_pre n creator ts gt drained in
+    filter (fun t => negb (is_type TGoldenTicket t || is_type TATR t || is_type TFee t))
+           (b_txs (fst bc) ++ c_rebroadcasts (snd bc) ++ opt_list (c_fee_tx (snd bc))).
 
   (* ---------------------------------------------------------------- Block::validate *)
   Definition eq_all (a b : list N) : bool := eqb_lN a b.
@@ -375,20 +410,14 @@ Section Producer.
      [gt], [drained] = what bundle_block hands to Block::create, [b] = the block it returns *)
   Definition Known_C07 (dbg : bool) (n : node) (creator ts : N) (gt : option tx) (drained : list tx)
              (b : block) : bool :=
-    let v := view (n_chain n) in
-    let tip_hash := match v_tip v with Some p => par_hash p | None => 0 end in
-    let cC := cv (n_chain n) (n_ledger n) (pre_block (v_tip v) tip_hash creator ts gt drained) in
+    let bc := create_pre n creator ts gt drained in
     let cV := cv (n_chain n) (n_ledger n) b in
     (* atr-payout-cap-reads-unfilled-treasury: cv of the finished block differs from what
        create wrote, or a rebroadcast transaction carries an input amount that is not in the ledger *)
-    negb (agreesb dbg hchain cC cV)
+    negb (agreesb dbg hchain (snd bc) cV)
     || negb (forallb (tx_valid (n_chain n) (n_ledger n)) (b_txs b))
-    (* invalid-golden-ticket-never-cleaned *)
-    || match gt with Some g => negb (gt_ok (n_chain n) g) | None => false end
     (* type-issuance-pool *)
-    || (0 <? count_type TIssuance drained)
-    (* foreign-stake-transaction-pooled *)
-    || (negb (v_stake_req v =? 0) && negb (count_type TBlockStake drained =? 1)).
+    || (0 <? count_type TIssuance drained).
 
   (* ---------------------------------------------------------------- the pool *)
   Record mpool := mkM {
@@ -413,6 +442,7 @@ Section Producer.
 
   Definition add_transaction_if_validates (dbg : bool) (n : node) (m : mpool) (t : tx) : res mpool :=
     if producer_only t then Ok m
+    else if is_type TBlockStake t && negb (t_own t) then Ok m      (* fix 9879695 *)
     else if tx_valid (n_chain n) (n_ledger n) t then add_transaction dbg m t else Ok m.
 
   (* add_golden_ticket: keyed by target, the solution is not looked at *)
@@ -457,12 +487,27 @@ Section Producer.
   (* outcome of bundle_block: no block and why, or the block *)
   Inductive bundled := GateClosed | NoStake | CreateFailed | Bundled (b : block).
 
+  (* fix e0300b2: the ticket handed over is checked like Block::validate will check it; one that
+     does not solve the tip is removed from the ticket map (under the tip's hash and under its
+     own target) and the bundle goes on without a ticket *)
+  Definition del_gt (h : N) (g : list (N * tx)) : list (N * tx) :=
+    filter (fun x => negb (fst x =? h)) g.
+  Definition drop_ticket (n : node) (m : mpool) (g : tx) : mpool :=
+    mkM (m_txs m) (m_umap m) (m_work m) (m_fresh m) (m_queue_empty m)
+        (del_gt (t_target g) (del_gt (tip_hash_of n) (m_gts m))).
+  Definition screen_ticket (n : node) (m : mpool) (gt : option tx) : option tx * mpool :=
+    match gt with
+    | Some g => if gt_ok (n_chain n) g then (Some g, m) else (None, drop_ticket n m g)
+    | None => (None, m)
+    end.
+
   Definition bundle (dbg : bool) (n : node) (creator : N) (m : mpool) (ts : N) (gt : option tx)
              (stake : option tx) (order : list N) : res (bundled * mpool) :=
     let v := view (n_chain n) in
     let pts := match v_tip v with Some p => par_ts p | None => 0 end in
     (* current_timestamp <= previous_block_timestamp: `return None` (fix f62222f; an assert! before) *)
     if negb (pts <? ts) then Ok (GateClosed, m) else
+    let '(gt, m) := screen_ticket n m gt in
     match can_bundle n m ts (is_some gt) with
     | None => Ok (GateClosed, m)
     | Some _ =>
@@ -470,11 +515,16 @@ Section Producer.
         | None => Ok (NoStake, m)             (* create_staking_transaction(..).ok()? *)
         | Some s =>
             do m1 <- add_transaction_if_validates dbg n m s;
-            match create dbg n creator ts gt (drain_in order (m_txs m1)) with
+            let drained := drain_in order (m_txs m1) in
+            match create dbg n creator ts gt drained with
             | Panic site => Panic site
             | Err =>
-                (* the map was drained; rebuild_utxo_map() on it; cache zeroed *)
-                Ok (CreateFailed, mkM [] [] 0 (m_fresh m1) (m_queue_empty m1) (m_gts m1))
+                (* create put back what it had drained and not left out; reservations and the
+                   work cache are recomputed from that *)
+                let back := handed_back n creator ts gt drained in
+                Ok (CreateFailed,
+                    mkM back (flat_map t_inputs back) (nsum (map t_work back)) (m_fresh m1)
+                        (m_queue_empty m1) (m_gts m1))
             | Ok b =>
                 Ok (Bundled b,
                     mkM [] (remove_keys (flat_map t_inputs (b_txs b)) (m_umap m1)) 0 false
@@ -486,9 +536,6 @@ Section Producer.
   (* ---------------------------------------------------------------- after add_block *)
   (* add_block_failure: delete_block(hash of the FAILED block) on a map keyed by target,
      then the Normal transactions of an own block that validate go back through add_transaction *)
-  Definition del_gt (h : N) (g : list (N * tx)) : list (N * tx) :=
-    filter (fun x => negb (fst x =? h)) g.
-
   Fixpoint add_all (dbg : bool) (m : mpool) (l : list tx) : res mpool :=
     match l with
     | [] => Ok m
@@ -534,7 +581,7 @@ Section Producer.
      a rejected own block goes through add_block_failure *)
   Definition round (dbg : bool) (n n2 : node) (creator : N) (m : mpool) (ts : N)
              (stake : option tx) (order : list N) (block_hash : N) : list (list N) :=
-    let tip_hash := match v_tip (view (n_chain n)) with Some p => par_hash p | None => 0 end in
+    let tip_hash := tip_hash_of n in
     let gt := pick_gt m tip_hash in
     match bundle dbg n creator m ts gt stake order with
     | Panic s => [[900 + s]]
@@ -600,7 +647,9 @@ Definition run_rcase (wn : N -> N -> N -> N -> N) (c : rcase) : list (list N) :=
 (* the pieces of the round, for statements about a recorded case *)
 Definition rc_tip_hash (c : rcase) : N :=
   match v_tip (rc_view c) with Some p => par_hash p | None => 0 end.
-Definition rc_gt (c : rcase) : option tx := pick_gt (rc_pool c) (rc_tip_hash c).
+(* the ticket bundle_block goes on with: the pooled one for the tip, if it solves the tip *)
+Definition rc_gt (c : rcase) : option tx :=
+  fst (screen_ticket unit (rc_viewf c) (rc_gtf c) rc_node (rc_pool c) (pick_gt (rc_pool c) (rc_tip_hash c))).
 Definition rc_drained (c : rcase) : list tx :=
   match rc_stake c with
   | Some s =>
@@ -613,8 +662,10 @@ Definition rc_drained (c : rcase) : list tx :=
 Definition rc_created (c : rcase) : res block :=
   create unit (rc_viewf c) (rc_cvf c) (lookup_l (rc_hchain c)) (lookup_l (rc_mroot c))
          true rc_node (rc_creator c) (rc_ts c) (rc_gt c) (rc_drained c).
+Definition rc_pre (c : rcase) : block * cvrec :=
+  create_pre unit (rc_viewf c) (rc_cvf c) rc_node (rc_creator c) (rc_ts c) (rc_gt c) (rc_drained c).
 Definition rc_known (c : rcase) (b : block) : bool :=
-  Known_C07 unit (rc_viewf c) (rc_cvf c) (rc_validf c) (rc_gtf c) (lookup_l (rc_hchain c))
+  Known_C07 unit (rc_viewf c) (rc_cvf c) (rc_validf c) (lookup_l (rc_hchain c))
             true rc_node (rc_creator c) (rc_ts c) (rc_gt c) (rc_drained c) b.
 Definition rc_accepts (wn : N -> N -> N -> N -> N) (c : rcase) (b : block) : res bool :=
   node_accepts unit (rc_viewf c) (rc_cvf c) (rc_validf c) (rc_gtf c) wn
